@@ -93,3 +93,72 @@ def pin_hashes() -> None:
         for rel, funcs in getattr(mod, "SOURCES", {}).items():
             pinned.update(fw.src_hash(rel, funcs))
     json.dump(pinned, open(HASHFILE, "w"), indent=1, sort_keys=True)
+
+
+# ---- TraceSymbolTable.add_symbols (hta/common/trace_symbol_table.py) -> coq/gen/Symtab_gen.v ----
+def gen_symtab() -> str:
+    """Reads the insertion loop of add_symbols and emits it as a Gallina step function.  Supported shape only:
+         for s in symbols:
+             if s not in self.sym_index:
+                 idx = len(self.sym_table)
+                 self.sym_table.append(s)
+                 self.sym_index[s] = idx
+       (the three statements in any order as long as idx is computed before the append).  Anything else stops."""
+    src = open(os.path.join(fw.REPO, "hta/common/trace_symbol_table.py")).read()
+    tree = ast.parse(src)
+    fn = None
+    for node in ast.walk(tree):
+        if isinstance(node, ast.ClassDef) and node.name == "TraceSymbolTable":
+            for it in node.body:
+                if isinstance(it, ast.FunctionDef) and it.name == "add_symbols":
+                    fn = it
+    if fn is None:
+        raise Stop("TraceSymbolTable.add_symbols not found")
+    body = [st for st in fn.body if not (isinstance(st, ast.Expr) and isinstance(st.value, ast.Constant))]
+    if len(body) != 1 or not isinstance(body[0], ast.For):
+        raise Stop("add_symbols: body is not a single for loop")
+    loop = body[0]
+    if not (isinstance(loop.target, ast.Name) and isinstance(loop.iter, ast.Name) and loop.iter.id == fn.args.args[1].arg and not loop.orelse):
+        raise Stop("add_symbols: loop is not `for s in <argument>`")
+    s = loop.target.id
+    if len(loop.body) != 1 or not isinstance(loop.body[0], ast.If) or loop.body[0].orelse:
+        raise Stop("add_symbols: loop body is not a single if without else")
+    cond = loop.body[0]
+    t = cond.test
+    if not (isinstance(t, ast.Compare) and len(t.ops) == 1 and isinstance(t.ops[0], ast.NotIn) and isinstance(t.left, ast.Name) and t.left.id == s
+            and ast.unparse(t.comparators[0]) == "self.sym_index"):
+        raise Stop(f"add_symbols: membership test is `{ast.unparse(t)}`, expected `{s} not in self.sym_index`")
+    stmts = [ast.unparse(x) for x in cond.body]
+    want = {f"idx = len(self.sym_table)", f"self.sym_table.append({s})", f"self.sym_index[{s}] = idx"}
+    if set(stmts) != want or len(stmts) != 3:
+        raise Stop(f"add_symbols: insertion statements are {stmts}")
+    if stmts.index("idx = len(self.sym_table)") > stmts.index(f"self.sym_table.append({s})"):
+        raise Stop("add_symbols: idx is computed after the append")
+    text = '''(* GENERATED by harness/translate.py from hta/common/trace_symbol_table.py TraceSymbolTable.add_symbols -- do not edit.
+   State: sym_table (list of symbols, id = position) and sym_index (association list symbol -> id). *)
+From HTA.lib Require Import Base.
+Open Scope Z_scope.
+
+Record symtab := mkSym { sym_table : list string; sym_index : list (string * Z) }.
+Definition empty_symtab : symtab := mkSym [] [].
+
+Fixpoint lookup (s : string) (m : list (string * Z)) : option Z :=
+  match m with
+  | [] => None
+  | (k, v) :: r => if String.eqb s k then Some v else lookup s r
+  end.
+
+(* if s not in self.sym_index: idx = len(self.sym_table); self.sym_table.append(s); self.sym_index[s] = idx *)
+Definition add_one (st : symtab) (s : string) : symtab :=
+  match lookup s (sym_index st) with
+  | None => let idx := Z.of_nat (List.length (sym_table st)) in
+            mkSym (sym_table st ++ [s])%list ((s, idx) :: sym_index st)
+  | Some _ => st
+  end.
+
+(* for s in symbols: ... *)
+Definition add_symbols (st : symtab) (symbols : list string) : symtab := fold_left add_one symbols st.
+'''
+    path = os.path.join(GEN, "Symtab_gen.v")
+    write_if_changed(path, text)
+    return "gen/Symtab_gen.v"
